@@ -47,6 +47,20 @@ fn c06_power_resource_opcode() {
     let (len, w) = pkg_decode(&b[2..]);
     assert_eq!(len, b.len() - 2, "PkgLength");
     assert_eq!(&b[2 + w..2 + w + 4], b"PWR0");
+    // DefMutex := MutexOp(0x5B 0x01) NameString SyncFlags(ByteData): one raw byte for every sync level
+    for level in 0..=15u8 {
+        let mut want = vec![0x5b, 0x01];
+        want.extend_from_slice(b"MTX0");
+        want.push(level);
+        let m = Mutex::new("MTX0".into(), level);
+        assert_eq!(ser(&m), want, "Mutex with sync level {}", level);
+        // ... and the object that follows it in a scope starts right after that byte
+        let uid = Name::new("_UID".into(), &7u8);
+        let sc = ser(&Scope::new("_SB_".into(), vec![&m, &uid]));
+        let tail = ser(&uid);
+        assert_eq!(&sc[sc.len() - tail.len()..], &tail[..]);
+        assert_eq!(&sc[sc.len() - tail.len() - want.len()..sc.len() - tail.len()], &want[..], "Mutex (level {}) inside a scope", level);
+    }
 }
 
 // ---- C10
@@ -550,6 +564,26 @@ fn c08_integer_encodings_reference() {
         assert_eq!(ser(&(v as usize)), w, "usize {}", v);
         if v <= 0xff { assert_eq!(ser(&(v as u8)), w, "u8 {}", v); }
     }
+    // the same constants as package elements (both construction paths), as a Name's value, and as the
+    // BufferSize the crate computes itself: one encoding everywhere
+    for v in [0u64, 1, 2, 0xff, 0x100, 0xffff, 0x1_0000, 0xffff_ffff, 0x1_0000_0000, 0x1122_3344_5566_7788, 0xffff_ffff_0000_0001, u64::MAX] {
+        let w = ref_int(v);
+        let p = ser(&Package::new(vec![&v]));
+        assert_eq!(&p[p.len() - w.len()..], &w[..], "Package element {:#x}", v);
+        let mut pb = PackageBuilder::new();
+        pb.add_element(&v);
+        let q = ser(&pb);
+        assert_eq!(q, p, "PackageBuilder element {:#x}", v);
+        let n = ser(&Name::new("VAL0".into(), &v));
+        assert_eq!(&n[n.len() - w.len()..], &w[..], "Name value {:#x}", v);
+    }
+    for n in [0usize, 1, 2, 3, 254, 255, 256, 257, 65535, 65536, 65537] {
+        let b = ser(&BufferData::new(vec![0x5a; n]));
+        let (_, w) = pkg_decode(&b[1..]);
+        let size = ref_int(n as u64);
+        assert_eq!(&b[1 + w..1 + w + size.len()], &size[..], "BufferSize of a {}-byte buffer is the narrowest integer encoding", n);
+        assert_eq!(b.len(), 1 + w + size.len() + n, "buffer of {} bytes", n);
+    }
     for base in [0x1_0000u64, 0xffff_ffff, 0x1_0000_0000, u64::MAX - 2, 1 << 31, 1 << 32, 1 << 63] {
         for d in 0..5u64 {
             let v = base.wrapping_add(d).wrapping_sub(2);
@@ -673,7 +707,9 @@ fn c07_field_widths_at_boundaries() {
 }
 #[test]
 fn c15_package_builder_equals_package() {
-    for n in 0..=200usize {
+    assert_eq!(ser(&Scope::new("_SB_".into(), vec![])), Scope::raw("_SB_".into(), vec![]), "empty scope: object path vs raw path");
+    assert_eq!(Scope::raw("_SB_".into(), vec![]), vec![0x10, 0x05, b'_', b'S', b'B', b'_']);
+    for n in 0..=255usize {
         let els: Vec<u32> = (0..n).map(|i| [0u32, 1, 0xff, 0x100, 0x12345, 0xffff_ffff][i % 6]).collect();
         let refs: Vec<&dyn Aml> = els.iter().map(|e| e as &dyn Aml).collect();
         let mut pb = PackageBuilder::new();
@@ -751,6 +787,24 @@ fn c10_resource_templates_reference() {
         let tail = ser(&uid);
         assert_eq!(&d[d.len() - tail.len()..], &tail[..], "sibling after the template (payload {})", payload);
         assert_eq!(d.len(), 2 + dw + 4 + ser(&crs).len() + tail.len());
+    }
+    // children whose own bytes end in 0x79 0x00 (the end tag's bytes), last and not last
+    {
+        let m = Memory32Fixed::new(true, 0x1000, 0x0079_0000);
+        let i = Interrupt::new(true, true, false, false, 0x0079_0000);
+        let io = IO::new(0x10, 0x20, 0x79, 0);
+        let plain = IO::new(1, 2, 3, 4);
+        let sets: Vec<Vec<&dyn Aml>> = vec![vec![&m], vec![&i], vec![&io], vec![&plain, &m], vec![&m, &plain], vec![&io, &i, &m], vec![&m, &m]];
+        for kids in sets {
+            let payload: usize = kids.iter().map(|k| ser(*k).len()).sum::<usize>() + 2;
+            let b = ser(&ResourceTemplate::new(kids));
+            let (len, w) = pkg_decode(&b[1..]);
+            assert_eq!(len, b.len() - 1);
+            let size = ref_int(payload as u64);
+            assert_eq!(&b[1 + w..1 + w + size.len()], &size[..], "BufferSize counts the children and the end tag ({} bytes)", payload);
+            assert_eq!(b.len(), 1 + w + size.len() + payload, "children + end tag, whatever the last child's bytes are");
+            assert_eq!(&b[b.len() - 2..], &[0x79, 0x00]);
+        }
     }
     // Generic Register descriptor (ACPI 6.4.3.7): 0x82, length 12, then the GAS fields in order
     {
@@ -1511,6 +1565,15 @@ fn c11_option_builders_are_independent() {
         f.add_target(*b"CPU0");
         assert_eq!(le16_at(&ser(&f), 32), mask, "CFMWS restrictions {:#b} in order {:?}", mask, ord);
         }
+    }
+    // RIMT IOMMU flags: bit 0 = PCIe device (gates segment / B:D.F), bit 1 = proximity domain valid; independent of the base address
+    for bits in 0..8u32 {
+        let base = if bits & 4 != 0 { Some(0x1000_0000u64) } else { None };
+        let pci = if bits & 1 != 0 { Some(rimt::PciDevice::new(0x12, 0x34, 5, 6)) } else { None };
+        let pd = if bits & 2 != 0 { Some(9u32) } else { None };
+        let b = ser(&rimt::Iommu::new(1, base, pci, pd, None));
+        assert_eq!(le32_at(&b, 16), bits & 3, "IOMMU flags for base={:?} pci={} proximity={:?}", base, bits & 1 != 0, pd);
+        assert_eq!(le64_at(&b, 8), base.unwrap_or(0)); assert_eq!(le16_at(&b, 20), if bits & 1 != 0 { 0x12 } else { 0 }); assert_eq!(le32_at(&b, 24), pd.unwrap_or(0));
     }
     let b = ser(&madt::ProcessorLocalApic::new(1, 2, E::DisabledOnlineCapable)); assert_eq!(le32_at(&b, 4), 2);
     let b = ser(&rimt::IdMapping::new(1, 2, 3, { let mut t = rimt::RIMT::new(OEM, TBL, 1); t.add_iommu(rimt::Iommu::new(0, None, None, None, None)) }, true, false, true)); assert_eq!(le32_at(&b, 16), 5); assert_eq!(le32_at(&b, 12), 48);
